@@ -303,6 +303,7 @@ func (d *Disk) apply(f *Fault, accessed string) error {
 
 // MaterialiseAt writes a project below dir (used for runs with several projects).
 func MaterialiseAt(dir string, files []GenFile) error {
+	resetCwd()
 	os.RemoveAll(dir)
 	if err := os.MkdirAll(dir, 0o755); err != nil {
 		return err
